@@ -3,7 +3,7 @@ import splgen
 
 SNIPPETS = ["", "", " ", "\n", ";", "x", "1", "if", "proc", "type", "{", "}", "(", ")", "// c\n", ":=", "=", ",", "x := 1;", "y",
             "while (x < 1) { }", "var z: int;", "f(1, 2);", "'a'", "0x", "é", "[", "]", "else", "ref", "a[0] := 2;", " + 1",
-            "proc g() {}\n", "type t = int;\n"]
+            "proc g() {}\n", "type t = int;\n", "/", "//", "'", "0x", "0", "<", ">", ":", "*", "\r"]
 
 
 def byte_offsets(text):
